@@ -16,6 +16,17 @@ fn prog_for(prop: &str, tier: u8, seed: u64, idx: usize) -> Prog {
         "C19" => 40,
         _ => 12,
     };
+    if prop == "C13" {
+        // SeqCst fences in two threads followed by relaxed loads: the per-execution SeqCst-fence clock decides which
+        // stores the loads may still read, so anything of it that survives an iteration shows as a resumed run (which
+        // starts from pristine state) diverging from the uninterrupted one
+        let named = [(4usize, "SB+f[sc,sc]"), (6, "f;RR|WW;f[sc,sc]"), (7, "MP+f[sc,sc]"), (9, "W;f;RR|WW;f[sc,sc]")];
+        if let Some((_, n)) = named.iter().find(|(i, _)| *i == idx) {
+            if let Some((_, p)) = cl.iter().find(|(name, _)| name == n) {
+                return p.clone();
+            }
+        }
+    }
     if idx < ncl {
         return cl[(idx * 7) % cl.len()].1.clone();
     }
